@@ -60,6 +60,31 @@ theorem poll_timeout_iff (T now : Nat) (h : HsPoll) :
     (pollFut T now h = none ↔ (h = .pending ∧ now < T)) := by
   cases h <;> simp [pollFut] <;> omega
 
+/-- The accept future may be polled by different tasks in turn (distinct wakers).  With a client that
+stalls: whatever polls came before, once task `b` has polled it (pending, before the deadline) the
+timeout wakes `b` — the task that polled LAST — and nobody else, and `b`'s next poll answers `Timeout`. -/
+theorem timeout_wakes_last_poller (f : FutW) (polls : List (Nat × Nat)) (b tb old new : Nat)
+    (htb : tb < f.deadline) (hold : old < f.deadline) (hnew : f.deadline ≤ new) :
+    let f1 := polls.foldl (fun g p => (g.poll p.1 p.2 .pending).1) f
+    let f2 := (f1.poll b tb .pending).1
+    f2.lastW = some b ∧ (f2.tick old new).wokenW b = true ∧
+    (∀ a, a ≠ b → (f2.tick old new).wokenW a = f2.wokenW a) ∧
+    ((f2.tick old new).poll b new .pending).2 = some .timeout := by
+  intro f1 f2
+  have hd1 : f1.deadline = f.deadline := FutW.polls_deadline polls f
+  have hp : pollFut f1.deadline tb .pending = none := by simp [pollFut, hd1]; omega
+  have h2 : f2 = { f1 with lastW := some b, wokenW := fun j => if j = b then false else f1.wokenW j } := by
+    simp [f2, FutW.poll, hp]
+  have hcross : old < f2.deadline ∧ f2.deadline ≤ new := by rw [h2]; simp [hd1]; omega
+  refine ⟨by rw [h2], ?_, ?_, ?_⟩
+  · simp only [FutW.tick, hcross, and_self, if_true]; rw [h2]; simp
+  · intro a ha
+    simp only [FutW.tick, hcross, and_self, if_true]; rw [h2]; simp [ha]
+  · have hdl : (f2.tick old new).deadline = f2.deadline := FutW.tick_deadline f2 old new
+    have : pollFut (f2.tick old new).deadline new .pending = some .timeout := by
+      simp [pollFut, hdl]; exact hcross.2
+    simp [FutW.poll, this]
+
 /-! ### The concurrency gate -/
 
 /-- Guards live exactly as long as accept futures: after **any** history the counter equals the number
@@ -388,6 +413,9 @@ example : drive (40 + 200) (fun _ => .pending) [40, 100, 240, 3040] = some (.tim
 example : ((Svc.init 1 100).run [.readyW 1, .call 0, .readyW 1, .readyW 2, .drop 0]).wokenW 2 = true ∧
     ((Svc.init 1 100).run [.readyW 1, .call 0, .readyW 1, .readyW 2, .drop 0]).wokenW 1 = false ∧
     ((Svc.init 1 100).run [.readyW 1, .call 0, .readyW 1, .readyW 2]).regW = 2 := by decide
+/-- polled by task 0 at 10 ms, by task 1 at 20 ms; the 100 ms deadline wakes task 1 only -/
+example : ((((({ deadline := 100 } : FutW).poll 0 10 .pending).1.poll 1 20 .pending).1.tick 99 100).wokenW 1 = true) ∧
+    ((((({ deadline := 100 } : FutW).poll 0 10 .pending).1.poll 1 20 .pending).1.tick 99 100).wokenW 0 = false) := by decide
 /-- a contract-violating history (three calls with max 2): `gate_general`, `guard_lifetime` still apply -/
 example : ((Svc.init 2 100).run [.call 0, .call 0, .call 0, .ready]).inProgress = 3 := by decide
 
